@@ -15,7 +15,10 @@ CLAIM = dict(
     text="Kernel-checked history theorem for ANY assignment of identifier hashes (colliding ones included) and every "
          "write history: the reader decodes each object with every descriptor it needs bound to itself; descriptor "
          "frames precede the object frame; reader and writer registries agree after every history; frames of one of "
-         "several simultaneously open writers equal the frames of its projection run alone. Inst: the registration "
+         "several simultaneously open writers equal the frames of its projection run alone; the same for histories in "
+         "which writes RAISE after any number of descriptors were registered and the caller carries on "
+         "(C03_own_descriptor_failed_writes: every object written successfully is still decoded with its own "
+         "descriptors). Inst: the registration "
          "guard read off packer.py compares the descriptor. Tie: guard shape regenerated from the source; the model "
          "writes byte-identical streams for every generated history on every writer; real-code oracle: descriptor "
          "(name, ordered fields) and deep values of every record read back = created, binary and JSON, 1-3 writers.",
